@@ -94,7 +94,7 @@ def vsize(v):
 
 def run_pool(modname, tasks, deadline=None, nproc=None):
     nproc = nproc or NPROC
-    rundir = os.path.join(uni.SCRATCH_BASE, 'fbmc.%d' % os.getpid())
+    rundir = os.path.join(uni.SCRATCH_BASE, 'fbmc.%07d' % os.getpid())
     shutil.rmtree(rundir, ignore_errors=True)
     os.makedirs(rundir)
     atexit.register(shutil.rmtree, rundir, True)
